@@ -45,6 +45,9 @@ TIMEOUT = {"quick": 1500, "thorough": 6 * 3600}
 def cases(tier, seed):
     nf, nh = (8, 14) if tier == "quick" else (250, 600)
     out = [{"kind": "fresh", "seed": seed * 811 + i} for i in range(nf)]
+    # several rebuilt atoms of one residue bump at the same time (the debumper then chooses among torsions by comparing
+    # collections of atom names - a place where container iteration order could decide)
+    out += [{"kind": "fresh", "bump": True, "seed": seed * 821 + i} for i in range(6 if tier == "quick" else 120)]
     out += [{"kind": "history", "seed": seed * 1213 + i} for i in range(nh)]
     return out
 
@@ -159,6 +162,8 @@ def text_of(cfg):
         return (common.REPO / "tests" / "data" / f"{cfg['w']['named']}.pdb").read_text()
     if cfg["w"].get("w") == "ligcomplex":
         return ligand_complex(cfg["w"]["seed"])[0]
+    if cfg["w"].get("w") == "bumppair":
+        return bump_pair(cfg["w"]["seed"])
     m = workload.materialise({k: v for k, v in cfg["w"].items() if k not in ("enc", "model_numbers", "lone_waters")})
     if cfg["w"].get("lone_waters"):
         # isolated waters far from everything (no hydrogen-bond partner, no protein atom in the neighbouring cells)
@@ -240,6 +245,40 @@ def run_cfg(cfg):
     finally:
         if apbs:
             r.cleanup()
+
+
+def bump_pair(seed):
+    """A peptide in which one branched side chain is cut back to its stem (GLU / GLN after CG, ASP / ASN after CB, ARG
+    after NE, LEU after CB ...) with obstacle waters close to where each of the rebuilt end atoms will land."""
+    import numpy as np
+    from ..gen import structures as S
+    rng = random.Random(seed)
+    cut = {"GLU": ("CD", "OE1", "OE2"), "GLN": ("CD", "OE1", "NE2"), "ASP": ("CG", "OD1", "OD2"), "ASN": ("CG", "OD1", "ND2"),
+           "ARG": ("CZ", "NH1", "NH2"), "LEU": ("CG", "CD1", "CD2"), "VAL": ("CG1", "CG2"), "THR": ("OG1", "CG2"),
+           "ILE": ("CG1", "CG2", "CD1")}
+    # long enough for the cut to stay below the repair limit (10 % of the heavy atoms)
+    seq = [rng.choice(["ALA", "LEU", "SER", "VAL", "THR"]) for _ in range(rng.randint(9, 12))]
+    targets = rng.sample(range(1, len(seq) - 1), 1)
+    for k in targets:
+        seq[k] = rng.choice(sorted(cut))
+    pep = S.peptide(seq, rng)
+    heavy = [x for r in pep for n, x in r["atoms"]]
+    waters = []
+    for k in targets:
+        r = pep[k]
+        gone = cut[r["resn"]]
+        ends = [x for n, x in r["atoms"] if n in gone[-2:]]
+        r["atoms"] = [(n, x) for n, x in r["atoms"] if n not in gone]
+        keep = [x for rr in pep for n, x in rr["atoms"]]
+        for e in ends:
+            for _try in range(40):
+                d = np.array([rng.gauss(0, 1) for _ in range(3)])
+                o = e + d / np.linalg.norm(d) * rng.uniform(0.9, 1.5)
+                if min(np.linalg.norm(np.array(keep) - o, axis=1)) >= 2.2:
+                    waters.append({"resn": "HOH", "kind": "wat", "atoms": [("O", o)]})
+                    break
+    items, _ = S.assemble([{"id": "A", "start": 1, "residues": pep}, {"id": "W", "start": 201, "residues": waters}])
+    return pdbfmt.to_text(items)
 
 
 def fresh(cfg, hashseed):
@@ -324,6 +363,14 @@ def run_fresh(spec, res):
     rng = random.Random(spec["seed"])
     cfg = config(rng)
     seeds = [0, 1, 2, rng.randrange(3, 2 ** 31)]
+    if spec.get("bump"):
+        ff = rng.choice(common.FFS)
+        w = {"w": "bumppair", "seed": rng.randrange(10 ** 6), "ff": ff}
+        opts = [f"--ff={ff}"] + rng.choice([[], [], ["--noopt"]])
+        cfg = {"id": hashlib.sha1(json.dumps([w, opts]).encode()).hexdigest()[:10], "fail": None, "opts": opts, "w": w,
+               "flavour": "rebuilt-atoms-bump-together", "userff": None}
+        seeds = [0, 1, 2, 3, 4, rng.randrange(5, 2 ** 31)]
+        res.count("fresh_bump_configurations")
     digs = {}
     for hs in seeds:
         digs[hs] = fresh(cfg, hs)
